@@ -1,21 +1,37 @@
 """C16 — vectorised and portable code paths compute identical results.
 The hash / MAC / cipher / KDF workloads of the other properties are run through harness binaries built with
--C target-feature in {baseline, +sse4.1, +avx, +avx2} (the host CPU has all of them) and through the
-portable-vs-native ChaCha engine ops; every binary must answer exactly what the Lean model/Spec answers."""
+-C target-feature in {baseline, +sse4.1, +avx, +avx2} in the dev profile plus +avx2 in the release profile (the host CPU has
+all of them) and through the portable-vs-native ChaCha engine ops; every binary must answer exactly what the Lean model/Spec
+answers."""
 import itertools
 from props import _auto
 
 LEAN_MODULES = _auto.lean_modules("C16")
-VARIANTS = ["default", "sse41", "avx", "avx2"]
+VARIANTS = ["default", "sse41", "avx", "avx2", "avx2rel"]
 RULE = ("unit generators gen_C16 (block counts 1..=20 per call, arbitrary chaining states, every input offset 0..=31, keyed/unkeyed "
-        "BLAKE2, portable vs native ChaCha engine for every key/nonce length) plus a deterministic sample of the C01/C02/C03/C04/"
-        "C05/C06/C08/C10/C11 workloads, all run through the four feature builds; non-trivial = non-empty data; distinct = distinct case lines")
+        "BLAKE2, portable vs native ChaCha engine for every key/nonce length, hook-preset BLAKE2 counters) plus the C01/C02/C03/C04/C05/"
+        "C06/C07/C08/C09/C10/C11 workloads, thinned per (op, kind) class: every k-th case WITHIN each class, the first of each class "
+        "always kept (quick: k = REUSE over the quick generators; thorough: k = REUSE_THOROUGH over the THOROUGH generators), all run "
+        "through five builds: {baseline, +sse4.1, +avx, +avx2} in the dev profile and +avx2 in the release profile; the stream-cipher "
+        "CONTEXT ops run the native engine of each build, the portable ChaCha engine is reached through the stream.eng/eng2 hook ops "
+        "only; non-trivial = non-empty data; distinct = distinct case lines")
 TRUSTED = ["hand-written Lean models (lean/CxVerif/Impl, Spec) tied to the code by the correspondence run",
            "which machine instructions a target-feature build selects is observed on the real binaries, not proved"]
-PROOF_SCOPE = 'partial by nature: the lane models / translated intrinsic code are proved equal to the portable reference for every input; that a `-C target-feature` build executes those instructions, and that aligned loads do not fault, is observed on four harness builds'
+PROOF_SCOPE = 'partial by nature: the lane models / translated intrinsic code are proved equal to the portable reference for every input; that a `-C target-feature` build executes those instructions, and that aligned loads do not fault, is observed on five harness builds'
 ASSUMPTIONS = ["host CPU supports sse4.1, avx, avx2 (checked at run time via `cxharness features`)"]
 nontrivial = _auto.default_nontrivial
-REUSE = {"C01": 6, "C02": 40, "C03": 3, "C04": 3, "C05": 10, "C06": 10, "C08": 6, "C10": 6, "C11": 4}
+# stride per (op, kind) class of the reused workloads
+REUSE = {"C01": 6, "C02": 40, "C03": 3, "C04": 3, "C05": 10, "C06": 10, "C07": 12, "C08": 6, "C09": 30, "C10": 6, "C11": 4}
+REUSE_THOROUGH = {"C01": 4, "C02": 30, "C03": 1, "C04": 2, "C05": 4, "C06": 2, "C07": 4, "C08": 1, "C09": 15, "C10": 1, "C11": 2}
+
+
+def reused(table, tier, rng, keep=None):
+    """the workloads of the listed properties from the generators of this tier, thinned per (op, kind) class"""
+    for prop, stride in table.items():
+        def src(prop=prop):
+            for line, kind in _auto.make_gen(prop, also=False)(tier, rng):
+                yield (line, f"{prop}/{kind}")
+        yield from _auto.thin(src(), stride, keep)
 
 
 def gen(tier, rng):
@@ -27,8 +43,6 @@ def gen(tier, rng):
             yield (line, "blake2:" + kind)
     except ImportError:
         pass
-    for prop, stride in REUSE.items():
-        k = stride if tier == "quick" else max(1, stride // 3)
-        for i, (line, kind) in enumerate(_auto.make_gen(prop, also=False)("quick", rng)):
-            if i % k == 0:
-                yield (line, f"{prop}/{kind}")
+    # `.wild` = operands outside the valid domain (hook-fed limb kernels beyond their bounds): the answer depends on the overflow
+    # checks of the build PROFILE by nature, and C16 now mixes dev and release builds
+    yield from reused(REUSE if tier == "quick" else REUSE_THOROUGH, tier, rng, keep=lambda line, kind: not kind.endswith(".wild"))
